@@ -250,3 +250,27 @@ Example model_example :
   grey_reconstruction ex_seed ex_mask ex_fp = Ok (ex_R, 0) /\
   grey_reconstruction [[0; 9; 0]] [[7; 9; 4]] ex_fp_right = Ok ([[0; 9; 4]], 0).
 Proof. vm_compute. split; reflexivity. Qed.
+
+(* ------------------------------------------------------------------ idempotence, on grids *)
+Lemma rect_width {A} (g : list (list A)) w : 1 <= zlen g -> rect g w = true -> width g = w.
+Proof.
+  unfold rect, width, zlen. destruct g as [|row g]; cbn [length hd forallb]; intros Hl Hr; [lia|].
+  apply andb_prop in Hr. destruct Hr as [Hr _]. unfold zlen in Hr. lia.
+Qed.
+
+(* any output accepted by the checker is its own reconstruction under the same mask, and every
+   reconstruction of it equals it: "applying it again to its own output changes nothing" *)
+Theorem recon_check_idempotent seed mask fp R lvl :
+  recon_check seed mask fp R lvl = true ->
+  GridRecon R mask fp R /\
+  forall R2, GridRecon R mask fp R2 ->
+    forall p, inD (zlen seed) (width seed) p = true -> gval R2 p = gval R p.
+Proof.
+  intros HC. assert (HS := recon_check_shape _ _ _ _ _ HC). destruct HS as (EL & ER & H1 & W1).
+  assert (EW : width R = width seed) by (apply rect_width; [lia|exact ER]).
+  assert (G := recon_check_sound _ _ _ _ _ HC). unfold GridRecon in *. rewrite EL, EW.
+  assert (I := recon_idempotent _ _ _ _ _ _ G). split; [exact I|].
+  intros R2 G2 p Dp.
+  apply (recon_unique pt (fun p => inD (zlen seed) (width seed) p = true)
+           (gpreds (zlen seed) (width seed) (fp_offsets fp)) (gval R) (gval mask) (gval R2) (gval R) G2 I p Dp).
+Qed.
